@@ -10,13 +10,19 @@ import (
 	_ "perun.network/go-perun/backend/sim"
 	_ "perun.network/go-perun/client"
 	"verif/harness/internal/c15"
+	"verif/harness/internal/c18"
+	"verif/harness/internal/codec"
 	"verif/harness/internal/mach"
 	"verif/harness/internal/tables"
 )
 
 var drivers = map[string]func(seed int64, tier, out string){
 	"C15": c15.Run,
+	"C18": c18.Run,
 	"gen": tables.Run,
+	"C13": codec.RunC13,
+	"C14": codec.RunC14,
+	"C16": codec.RunC16,
 	"C01": mach.Run("C01"),
 	"C02": mach.Run("C02"),
 	"C09": mach.Run("C09"),
